@@ -12,6 +12,13 @@ MODULE = 'Props.C01'
 THEOREMS = ['Vakt.C01.decide_iff', 'Vakt.C01.decide_no_match', 'Vakt.C01.decide_veto', 'Vakt.C01.decide_raise',
             'Vakt.C01.decide_perm', 'Vakt.C01.decide_uid_irrelevant', 'Vakt.C01.decide_dup',
             'Vakt.C01.allow_exact_constant', 'Vakt.C01.guard_decide_iff']
+# Guard.check_context_restriction / check_policies_allow / is_allowed_check, translated from /repo/vakt/guard.py in this
+# run (harness/pytolean.py -> lean/Gen/Guard.lean), are the model's ctxOk / decideCore / isAllowed (lean/Gen/EquivGuard.lean)
+EXTRA_BUILD = ['+Gen.EquivGuard']
+GEN_IMPORTS = ['Gen.EquivGuard']
+GEN_THEOREMS = ['Vakt.GenEquiv.gen_check_context_restriction', 'Vakt.GenEquiv.gen_match',
+                'Vakt.GenEquiv.gen_check_policies_allow', 'Vakt.GenEquiv.gen_check_policies_allow_lazy',
+                'Vakt.GenEquiv.gen_is_allowed_check', 'Vakt.GenEquiv.translatedGuard_covers']
 FLOOR = {'quick': 150, 'thorough': 3000}
 ASSUMPTIONS = ['policy elements whose tagged segments fall outside the modelled regex subset are judged by the '
                'direct oracle only (counted as unmodelled)']
